@@ -1,5 +1,6 @@
 import SecsModel.Props.C18
 import SecsModel.Props.C18b
+import SecsModel.Props.C18c
 #print axioms SecsModel.Props.C18.rejected_noop
 #print axioms SecsModel.Props.C18.moves_to_destination
 #print axioms SecsModel.Props.C18.active_is_ancestors_forest
@@ -21,3 +22,9 @@ import SecsModel.Props.C18b
 #print axioms SecsModel.Props.C18b.comm_bridge_wired
 #print axioms SecsModel.Props.C18b.pair_connOk_is_table
 #print axioms SecsModel.Props.C18b.pair_commOk_in_table
+#print axioms SecsModel.Props.C18c.conn_definition
+#print axioms SecsModel.Props.C18c.comm_definition
+#print axioms SecsModel.Props.C18c.ctrl_definition
+#print axioms SecsModel.Props.C18c.hierarchy
+#print axioms SecsModel.Props.C18c.comm_reference_is_E30Comm
+#print axioms SecsModel.Props.C18c.reference_wellformed
